@@ -44,6 +44,7 @@ LONG = {
     '@C': dict(n=30517, period=105, seed=13),     # non-integer rate      (fs = 1017.25, band 8.1-12.9)
     '@D': dict(n=40000, period=200, seed=14),     # 200 samples per cycle (fs = 2000, band 8-12)
     '@E': dict(n=6000, period=50, seed=15),       # 120 cycles            (fs = 500, band 8-12)
+    '@G': dict(n=300000, period=50, seed=17),     # 300 s at fs = 1000: more than 2**18 samples (band amplitude envelope > 2 MB)
     '@F': dict(n=140000, period=50, seed=16),     # ~2800 cycles, 140 s at fs = 1000: times * fs beyond 1e5, views of more than 1e5 samples
 }
 _LONG_CACHE = {}
@@ -160,7 +161,7 @@ DEVIATIONS = {
 }
 # deviations that exclude each other (same option)
 LONG_DEVS = ('L500a', 'L1000b', 'L1017', 'L2000a')
-LONG_DECL = {'@A': 'L500a', '@B': 'L1000b', '@C': 'L1017', '@D': 'L2000a', '@E': 'L500a', '@F': 'L1000b'}
+LONG_DECL = {'@A': 'L500a', '@B': 'L1000b', '@C': 'L1017', '@D': 'L2000a', '@E': 'L500a', '@F': 'L1000b', '@G': 'L1000b'}
 GROUPS = [('driftdn', 'driftup', 'dc5', 'neg'), ('strided', 'int', 'int16big', 'readonly'), ('fsfloat', 'fsnp', 'fs128', 'band5_12', 'band7_16') + LONG_DEVS, ('nc2', 'nc3', 'nc4', 'ns.5', 'ns.375'), ('b0', 'b1', 'b5', 'b12'), ('thr1', 'nothr'), ('band5_12', 'band7_16', 'fs128'),
           ('x1024', 'x2-10', 'x.125', 'x2-40', 'x2+40')]
 
